@@ -301,7 +301,8 @@ def gen_cases(rng, tier, budget):
         cases.append("seqless %d %d" % (rng.randrange(65536), rng.randrange(65536)))
     cases += gen_disp(rng, 150 if quick else 2000)
     cases += gen_full(rng, 150 if quick else 2000)
-    cases.append("overlap")
+    for op in ("recv", "zlb", "send", "setwin", "flush", "nr"):      # every exported entry point vs the runner's Tick
+        cases.append("overlap " + op)
     cases.append("stopccn")
     cases.append("sccrqdup")
     cases.append("idle 700")
@@ -371,7 +372,7 @@ def monitor(case, line):
                     "the runner does not come back for a ZLB deadline armed by Recv")
         return None
     if case.startswith("sccrqdup"):
-        if not line.endswith("tunnels=1"):
+        if "tunnels=1 sccrp=1" not in line:
             return "one SCCRQ received twice (retransmission) was handed to the protocol machine twice: %s" % line
         return None
     if case.startswith("stopccn"):
